@@ -106,7 +106,7 @@ func (x *c19XB) inlines(in []c19Inl, cons, inl, ctx string, f [4]bool, dis bool,
 	}
 	for _, n := range in {
 		switch n.K {
-		case "t":
+		case "t", "lit":
 			x.emit(n.T, cons, inl, ctx, f, dis, depth)
 		case "soft":
 			if x.pendingSep == "" {
@@ -135,6 +135,8 @@ func (x *c19XB) inlines(in []c19Inl, cons, inl, ctx string, f [4]bool, dis bool,
 			}
 		case "link":
 			x.inlines(n.Kids, cons, join("link"), ctx, f, dis, depth+1)
+		case "auto", "bare":
+			x.emit(n.T, cons, join("autolink"), ctx, f, dis, depth+1)
 		case "code":
 			g := f
 			g[c19Mono] = true
